@@ -4708,7 +4708,8 @@ gboolean conn_check_handle_inbound_stun (NiceAgent *agent, NiceStream *stream,
     }
 
     /* if the pair was selected, it is no longer useful */
-    if (nice_address_equal (from, &pair->remote->c.addr)) {
+    if (pair->remote != NULL &&
+        nice_address_equal (from, &pair->remote->c.addr)) {
       pair->remote_consent.have = FALSE;
       nice_debug ("Agent %p : pair %p lost consent for %u/%u (stream/component)",
           agent, pair, stream->id, component->id);
